@@ -91,31 +91,78 @@ func runC18(c *Ctx) {
 				}
 				key := fkey(fn) + ":window-store"
 				desc := "a store to the message window keeps earlier views intact (advance, extension from the high-water mark, fresh allocation or nil)"
-				switch v := st.Val.(type) {
-				case *ssa.MakeSlice:
-					R.OK("C18.R1", key+":fresh", c.at(st), desc, "fresh allocation")
-				case *ssa.Const:
-					R.Check(v.Value == nil, "C18.R1", key+":nil", c.at(st), desc, "nil", "stores a non-nil constant")
-				case *ssa.Slice:
-					u, isLoad := v.X.(*ssa.UnOp)
-					cur := isLoad && l.FM.Loads[u] != nil && l.FM.Loads[u].Field == "Msg"
-					// the slice operand must be the reader's own current window
-					if cur {
-						if fr2, ok := core.FieldOfValue(u); !ok || fr2.Base != fr.Base {
-							cur = false
+				// classify the stored value: every source it can come from (through phis) must be nil, a fresh allocation
+				// (possibly re-sliced), an advance v[a:] of the reader's own current window, or an upper-bounded re-slice
+				// v[:h] of a window-derived view that is provably empty (it then starts at the high-water mark)
+				isCur := func(x ssa.Value) bool {
+					u, isLoad := x.(*ssa.UnOp)
+					if !isLoad || l.FM.Loads[u] == nil || l.FM.Loads[u].Field != "Msg" {
+						return false
+					}
+					fr2, ok := core.FieldOfValue(u)
+					return ok && fr2.Base == fr.Base
+				}
+				var classify func(x ssa.Value, depth int) (kind, why string)
+				classify = func(x ssa.Value, depth int) (string, string) {
+					if depth > 6 {
+						return "bad", "too deep"
+					}
+					switch v := x.(type) {
+					case *ssa.MakeSlice:
+						return "fresh", ""
+					case *ssa.Const:
+						if v.Value == nil {
+							return "nil", ""
+						}
+						return "bad", "a non-nil constant"
+					case *ssa.Phi:
+						kind := ""
+						for _, e := range v.Edges {
+							k, w := classify(e, depth+1)
+							if k == "bad" {
+								return k, w
+							}
+							if kind == "" || k == "window" {
+								kind = k
+							}
+						}
+						return kind, ""
+					case *ssa.UnOp:
+						if isCur(x) {
+							return "window", ""
+						}
+						return "bad", "a slice of " + describe(x) + ", not of the current window: an allocation that earlier views still point into is re-exposed and will be overwritten by the next read"
+					case *ssa.Slice:
+						k, w := classify(v.X, depth+1)
+						switch {
+						case k == "bad":
+							return k, w
+						case k == "fresh" || k == "nil":
+							return k, ""
+						case v.High == nil && v.Max == nil:
+							return "window", "" // left-advance: never starts before its operand
+						default:
+							// every window-derived source of the operand is empty here
+							var srcs []ssa.Value
+							leaves(v.X, map[ssa.Value]bool{}, &srcs)
+							for _, src := range srcs {
+								if sk, _ := classify(src, depth+1); sk != "window" {
+									continue
+								}
+								if !l.Prove(st, l.LenOf(src), core.Zero, 0) {
+									return "bad", "re-sliced with an upper bound (" + describe(v.X) + "[:h]) while not provably empty: bytes of the current or an earlier message are re-exposed to the next read (right-truncation / rewind)"
+								}
+							}
+							return "window", ""
 						}
 					}
-					switch {
-					case !cur:
-						R.Fail("C18.R1", key+":foreign-source:"+describe(v.X), c.at(st), desc, "the window is set to a slice of "+describe(v.X)+", not of the current window: an allocation that earlier views still point into is re-exposed and will be overwritten by the next read")
-					case v.High == nil && v.Max == nil:
-						R.OK("C18.R1", key+":advance", c.at(st), desc, "left-advance Msg[a:] of the current window")
-					default:
-						zero := l.Prove(st, l.LenOf(v.X), core.Zero, 0)
-						R.Check(zero, "C18.R1", key+":extension-from-high-water-mark", c.at(st), desc, "extension Msg[:h] of a window proved empty at this point (E-LIN over field memory: "+l.Last+")", "the window is re-sliced with an upper bound (Msg[:h]) while it is not provably empty: bytes of the current or an earlier message are re-exposed to the next read (right-truncation / rewind)")
-					}
-				default:
-					R.Fail("C18.R1", key+":other:"+describe(st.Val), c.at(st), desc, "the window is set to "+describe(st.Val)+", which is neither an advance of the current window, an extension of an empty window, a fresh allocation nor nil")
+					return "bad", describe(x) + ", which is neither an advance of the current window, an extension of an empty window, a fresh allocation nor nil"
+				}
+				kind, why := classify(st.Val, 0)
+				if kind == "bad" {
+					R.Fail("C18.R1", key+":"+describe(st.Val), c.at(st), desc, "the window is set to "+why)
+				} else {
+					R.OK("C18.R1", key+":"+kind+":"+describe(st.Val), c.at(st), desc, "every source is nil, a fresh allocation, an advance of the current window, or an upper-bounded re-slice of an empty window-derived view (E-LIN)")
 				}
 			}
 		}
